@@ -74,7 +74,7 @@ CHECK_DEADLOCK FALSE
 
 
 def neg_control(ctx, bug, want):
-    r = ctx.tlc("Changelog", NEG_CFG % bug, count=False, workers=1, want_tags=set())
+    r = ctx.tlc("Changelog", NEG_CFG % bug, count=False, workers=1, want_tags=set(), java_opts=cc.jopts(ctx))
     if r.violated not in want:
         raise core.MachineryError("spec-level negative control Bug=%s: expected one of %s violated, TLC reports %r"
                                   % (bug, sorted(want), r.violated))
@@ -121,7 +121,7 @@ def run(ctx):
     cfg = "MC_Changelog_c04_quick.cfg" if quick else "MC_Changelog_c04.cfg"
     with ThreadPoolExecutor(max_workers=5) as ex:
         f_traces = ex.submit(cc.validate, ctx, traces)
-        f_bnd = ex.submit(ctx.tlc_must_hold, "Changelog", cfg, workers=4 if quick else 8, want_tags={"CASE"})
+        f_bnd = ex.submit(ctx.tlc_must_hold, "Changelog", cfg, workers=4 if quick else 8, want_tags={"CASE"}, java_opts=cc.jopts(ctx))
         f_neg = [ex.submit(neg_control, ctx, bug, want) for bug, want in NEG_CONTROLS]
         r = f_bnd.result()
         ctx.extra["spec_negative_controls"] = {bug: f.result() for (bug, _), f in zip(NEG_CONTROLS, f_neg)}
